@@ -114,6 +114,8 @@ type EncEntry struct {
 
 // Well-known algorithm identifiers.
 const (
+	AlgNotNamed         = ""                                   // EncryptedData without an EncryptionMethod child
+	AlgInKeyInfo        = "keyinfo"                            // EncryptedData without an EncryptionMethod child, with an EncryptedKey in ds:KeyInfo
 	AlgIDPFObfuscation  = "http://www.idpf.org/2008/embedding" // EPUB33 4.4 font obfuscation
 	AlgAdobeObfuscation = "http://ns.adobe.com/pdf/enc#RC"     // Adobe font mangling
 	AlgAES128CBC        = "http://www.w3.org/2001/04/xmlenc#aes128-cbc"
@@ -540,7 +542,16 @@ func (b Book) encryptionXML() []byte {
 	sb.WriteString(`<?xml version="1.0" encoding="UTF-8"?>` + "\n")
 	fmt.Fprintf(&sb, `<encryption xmlns="%s" xmlns:enc="http://www.w3.org/2001/04/xmlenc#" xmlns:ds="http://www.w3.org/2000/09/xmldsig#">`, nsContainer)
 	for _, e := range b.Encryption {
-		fmt.Fprintf(&sb, `<enc:EncryptedData><enc:EncryptionMethod Algorithm="%s"/>`, esc(e.Algorithm))
+		switch e.Algorithm {
+		case AlgNotNamed:
+			// EncryptionMethod is optional (XML Encryption 3.1): the recipient is supposed to know the cipher
+			sb.WriteString(`<enc:EncryptedData>`)
+		case AlgInKeyInfo:
+			// no cipher named for the data; the wrapped key says how it is wrapped
+			sb.WriteString(`<enc:EncryptedData><ds:KeyInfo><enc:EncryptedKey><enc:EncryptionMethod Algorithm="http://www.w3.org/2001/04/xmlenc#rsa-oaep-mgf1p"/><enc:CipherData><enc:CipherValue>AAAA</enc:CipherValue></enc:CipherData></enc:EncryptedKey></ds:KeyInfo>`)
+		default:
+			fmt.Fprintf(&sb, `<enc:EncryptedData><enc:EncryptionMethod Algorithm="%s"/>`, esc(e.Algorithm))
+		}
 		if e.KeyName != "" {
 			fmt.Fprintf(&sb, `<ds:KeyInfo><ds:KeyName>%s</ds:KeyName></ds:KeyInfo>`, esc(e.KeyName))
 		}
